@@ -143,6 +143,12 @@ def one_run(args):
     script = os.path.join(outdir, f"{tag}.script")
     dfa = os.path.join(outdir, f"{tag}.dfa")
     rx = os.path.join(outdir, f"{tag}.rx")
+    # what the destination files held before is part of the "environment" too: in every other run they already exist and
+    # are much longer than anything the program will write (an earlier, larger output)
+    if sum(map(ord, tag)) % 2 == 1:
+        for k, p in enumerate((script, dfa, rx)):
+            with open(p, "wb") as f:
+                f.write((b"# stale line %d of an earlier output }\n" % k) * 60000)
     r = subprocess.run([core.COMPLGEN, f"--{shell}", script, "--dfa", dfa, "--regex", rx, path], capture_output=True, env=env, timeout=120)
     digest = []
     for p in (script, dfa, rx):
@@ -152,6 +158,8 @@ def one_run(args):
             os.unlink(p)
         except OSError:
             digest.append(None)
+    if r.returncode != 0:
+        digest = ["not-compared (rejected grammar: what is left in the destination is C06's subject)"] * 3
     return r.returncode, digest, hashlib.sha256(r.stderr).hexdigest()
 
 
